@@ -274,6 +274,10 @@ macro_rules! jcheck {
       // callees (LLVM zeroext) rely on it; no native run on this tree shows harm, so it is reported in the evidence only.
       kani::cover!(!rj.abi_ext_ok, "abi.helper_argument_not_zero_extended");
       kani::cover!(!rj.aligned_ok, "abi.stack_misaligned_at_helper_call");
+    } else {
+      // native replay only: this instruction's counterexample state cannot be rebuilt on the replay image; consume the
+      // obligation selector anyway so that the values of the following instructions of this harness stay aligned
+      let _unused_selector: u8 = kani::any();
     }
   }};
 }
